@@ -326,7 +326,11 @@ func newAddressRewriteMapper(rules []AddressRewriteRule) (*addressRewriteMapper,
 		if mapErr != nil {
 			return nil, mapErr
 		}
-		maybeMarkEmptyMapping(ruleMapping, added, hasLocalAddr, localIsIPv4, localAddr)
+		// Only a rule that names no external address at all is the documented deny / no-op rule; a
+		// rule whose externals all belong to a family its Networks exclude matches nothing.
+		if len(rule.External) == 0 {
+			maybeMarkEmptyMapping(ruleMapping, added, hasLocalAddr, localIsIPv4, localAddr)
+		}
 
 		if ruleMapping.hasMappings() {
 			mapper.rulesByCandidateType[candidateType] = append(mapper.rulesByCandidateType[candidateType], ruleMapping)
